@@ -1,5 +1,233 @@
-//! Catalogue entries from /repo/curves (added incrementally).
+//! Catalogue entries from /repo/curves, harness-declared one-limb fields that
+//! fill the remaining spare-bit classes, and ark-poly's derive users.
+use crate::algebra::{zcash_foreign, zcash_model, Wire};
 use crate::catalogue::Entry;
+use crate::sem::{Sem, G};
+use crate::sim::{execute, gen_plan, show_values, Hooks};
+use crate::std_io;
+use ark_ff::fields::{Fp64, MontBackend, MontConfig};
+use ark_poly::univariate::{DensePolynomial, SparsePolynomial};
+use ark_poly::{
+    DenseMultilinearExtension, EvaluationDomain, Evaluations, GeneralEvaluationDomain, Radix2EvaluationDomain,
+    SparseMultilinearExtension,
+};
+
+macro_rules! small_field {
+    ($cfg:ident, $ty:ident, $modulus:literal, $gen:literal) => {
+        #[derive(MontConfig)]
+        #[modulus = $modulus]
+        #[generator = $gen]
+        pub struct $cfg;
+        pub type $ty = Fp64<MontBackend<$cfg, 1>>;
+    };
+}
+small_field!(F57Config, F57, "144115188075855859", "2");
+small_field!(F58Config, F58, "288230376151711717", "6");
+small_field!(F59Config, F59, "576460752303423433", "5");
+small_field!(F60Config, F60, "1152921504606846883", "2");
+small_field!(F61Config, F61, "2305843009213693951", "37");
+small_field!(F62Config, F62, "4611686018427387847", "6");
+small_field!(F63Config, F63, "9223372036854775783", "3");
+small_field!(F64Config, F64, "18446744073709551557", "2");
+
+const F: &[&str] = &["C09", "C10"];
+const C18: &[&str] = &["C18"];
+
+fn w<T: Wire>(name: &'static str, props: &'static [&'static str], weight: u32, budget: usize) -> Entry {
+    Entry {
+        name,
+        props,
+        weight,
+        hooks: Hooks { model: Some(T::model), foreign: Some(T::foreign), zst_elems: false, budget },
+        gen: gen_plan::<T>,
+        exec: execute::<T>,
+        show: show_values::<T>,
+    }
+}
+/// entry with explicitly supplied wire model (crates that override the point format)
+fn wz<T: Sem>(
+    name: &'static str,
+    props: &'static [&'static str],
+    weight: u32,
+    model: crate::sim::ModelFn,
+    foreign: crate::sim::ForeignFn,
+) -> Entry {
+    Entry {
+        name,
+        props,
+        weight,
+        hooks: Hooks { model: Some(model), foreign: Some(foreign), zst_elems: false, budget: 1 },
+        gen: gen_plan::<T>,
+        exec: execute::<T>,
+        show: show_values::<T>,
+    }
+}
+fn e<T: Sem>(name: &'static str, props: &'static [&'static str], weight: u32, budget: usize) -> Entry {
+    Entry {
+        name,
+        props,
+        weight,
+        hooks: Hooks { model: None, foreign: None, zst_elems: false, budget },
+        gen: gen_plan::<T>,
+        exec: execute::<T>,
+        show: show_values::<T>,
+    }
+}
+
+// ---- ark-poly types (users of the derive macros / hand-written impls) ------------------
+
+type Fr = ark_test_curves::bls12_381::Fr;
+
+impl Sem for DensePolynomial<Fr> {
+    fn gen(g: &mut G<'_>) -> Self {
+        DensePolynomial { coeffs: Vec::<Fr>::gen(g) }
+    }
+    fn same(&self, o: &Self) -> bool {
+        self.coeffs == o.coeffs
+    }
+    std_io!();
+}
+impl Sem for SparsePolynomial<Fr> {
+    fn gen(g: &mut G<'_>) -> Self {
+        let n = g.len();
+        let mut deg = 0usize;
+        let terms: Vec<(usize, Fr)> = (0..n)
+            .map(|_| {
+                deg += 1 + g.rng.below(5);
+                (deg, Fr::gen(g))
+            })
+            .collect();
+        SparsePolynomial::from_coefficients_vec(terms)
+    }
+    fn same(&self, o: &Self) -> bool {
+        self == o
+    }
+    std_io!();
+}
+impl Sem for Radix2EvaluationDomain<Fr> {
+    fn gen(g: &mut G<'_>) -> Self {
+        let d = Radix2EvaluationDomain::<Fr>::new(1usize << g.rng.below(20)).unwrap();
+        if g.rng.chance(1, 2) {
+            d
+        } else {
+            let mut off = Fr::gen(g);
+            if off == Fr::from(0u64) {
+                off = Fr::from(7u64);
+            }
+            d.get_coset(off).unwrap()
+        }
+    }
+    fn same(&self, o: &Self) -> bool {
+        self == o
+    }
+    std_io!();
+}
+impl Sem for GeneralEvaluationDomain<Fr> {
+    fn gen(g: &mut G<'_>) -> Self {
+        GeneralEvaluationDomain::<Fr>::new(1 + g.rng.below(5000)).unwrap()
+    }
+    fn same(&self, o: &Self) -> bool {
+        self == o
+    }
+    std_io!();
+}
+impl Sem for Evaluations<Fr, Radix2EvaluationDomain<Fr>> {
+    fn gen(g: &mut G<'_>) -> Self {
+        let d = Radix2EvaluationDomain::<Fr>::new(1usize << g.rng.below(6)).unwrap();
+        let evals = (0..EvaluationDomain::size(&d)).map(|_| Fr::gen(g)).collect();
+        Evaluations::from_vec_and_domain(evals, d)
+    }
+    fn same(&self, o: &Self) -> bool {
+        self == o
+    }
+    std_io!();
+}
+impl Sem for DenseMultilinearExtension<Fr> {
+    fn gen(g: &mut G<'_>) -> Self {
+        let nv = g.rng.below(6);
+        DenseMultilinearExtension::from_evaluations_vec(nv, (0..1 << nv).map(|_| Fr::gen(g)).collect())
+    }
+    fn same(&self, o: &Self) -> bool {
+        self == o
+    }
+    std_io!();
+}
+impl Sem for SparseMultilinearExtension<Fr> {
+    fn gen(g: &mut G<'_>) -> Self {
+        let nv = 1 + g.rng.below(8);
+        let n = g.len().min(1 << nv);
+        let ev: Vec<(usize, Fr)> = (0..n).map(|_| (g.rng.below(1 << nv), Fr::gen(g))).collect();
+        SparseMultilinearExtension::from_evaluations(nv, &ev)
+    }
+    fn same(&self, o: &Self) -> bool {
+        self == o
+    }
+    std_io!();
+}
+
 pub fn more() -> Vec<Entry> {
-    vec![]
+    vec![
+        // one-limb fields: every spare-bit class 0..7 of the top byte
+        w::<F57>("harness F57 (57 bit, 7 spare)", F, 1, 8),
+        w::<F58>("harness F58 (58 bit)", F, 1, 8),
+        w::<F59>("harness F59 (59 bit)", F, 1, 8),
+        w::<F60>("harness F60 (60 bit)", F, 1, 8),
+        w::<F61>("harness F61 (61 bit)", F, 1, 8),
+        w::<F62>("harness F62 (62 bit)", F, 1, 8),
+        w::<F63>("harness F63 (63 bit)", F, 1, 8),
+        w::<F64>("harness F64 (64 bit, 0 spare)", F, 2, 8),
+        // /repo/curves fields
+        w::<ark_bls12_381::Fq>("curves bls12_381::Fq", F, 1, 8),
+        w::<ark_bls12_381::Fq12>("curves bls12_381::Fq12", F, 1, 8),
+        w::<ark_bls12_377::Fq>("bls12_377::Fq (377 bit)", F, 2, 8),
+        w::<ark_bls12_377::Fr>("bls12_377::Fr (253 bit)", F, 2, 8),
+        w::<ark_bls12_377::Fq2>("bls12_377::Fq2", F, 1, 8),
+        w::<ark_bw6_761::Fq>("bw6_761::Fq (761 bit)", F, 2, 8),
+        w::<ark_bw6_761::Fq3>("bw6_761::Fq3", F, 1, 8),
+        w::<ark_bw6_761::Fq6>("bw6_761::Fq6", F, 1, 8),
+        w::<ark_mnt4_298::Fq>("mnt4_298::Fq (298 bit)", F, 2, 8),
+        w::<ark_mnt4_298::Fq2>("mnt4_298::Fq2", F, 1, 8),
+        w::<ark_mnt4_298::Fq4>("mnt4_298::Fq4", F, 1, 8),
+        w::<ark_mnt6_298::Fq3>("mnt6_298::Fq3", F, 1, 8),
+        w::<ark_mnt6_298::Fq6>("mnt6_298::Fq6 (2 over 3)", F, 1, 8),
+        w::<ark_secp384r1::Fq>("secp384r1::Fq (384 bit)", F, 2, 8),
+        w::<ark_curve25519::Fq>("curve25519::Fq (255 bit)", F, 1, 8),
+        w::<ark_pallas::Fq>("pallas::Fq (255 bit)", F, 1, 8),
+        // /repo/curves points: short Weierstrass
+        // ark-bls12-381 overrides the point format (zkcrypto/ZCash style): own wire model
+        wz::<ark_bls12_381::G1Affine>("curves bls12_381::G1Affine", F, 3, zcash_model::<ark_bls12_381::g1::Config>, zcash_foreign::<ark_bls12_381::g1::Config>),
+        wz::<ark_bls12_381::G2Affine>("curves bls12_381::G2Affine", F, 3, zcash_model::<ark_bls12_381::g2::Config>, zcash_foreign::<ark_bls12_381::g2::Config>),
+        wz::<ark_bls12_381::G1Projective>("curves bls12_381::G1Projective", F, 1, zcash_model::<ark_bls12_381::g1::Config>, zcash_foreign::<ark_bls12_381::g1::Config>),
+        wz::<ark_bls12_381::G2Projective>("curves bls12_381::G2Projective", F, 1, zcash_model::<ark_bls12_381::g2::Config>, zcash_foreign::<ark_bls12_381::g2::Config>),
+        w::<ark_bls12_377::G1Affine>("bls12_377::G1Affine", F, 2, 1),
+        w::<ark_bls12_377::G2Affine>("bls12_377::G2Affine", F, 2, 1),
+        w::<ark_bw6_761::G1Affine>("bw6_761::G1Affine", F, 1, 1),
+        w::<ark_bw6_761::G2Affine>("bw6_761::G2Affine", F, 1, 1),
+        w::<ark_mnt4_298::G1Affine>("mnt4_298::G1Affine", F, 1, 1),
+        w::<ark_mnt4_298::G2Affine>("mnt4_298::G2Affine", F, 1, 1),
+        w::<ark_mnt6_298::G1Affine>("mnt6_298::G1Affine", F, 1, 1),
+        w::<ark_mnt6_298::G2Affine>("mnt6_298::G2Affine", F, 1, 1),
+        w::<ark_pallas::Affine>("pallas::Affine", F, 2, 1),
+        w::<ark_pallas::Projective>("pallas::Projective", F, 1, 1),
+        w::<ark_secp384r1::Affine>("secp384r1::Affine", F, 2, 1),
+        w::<ark_grumpkin::Affine>("grumpkin::Affine", F, 1, 1),
+        w::<ark_ed_on_bls12_381_bandersnatch::SWAffine>("bandersnatch::SWAffine", F, 1, 1),
+        // twisted Edwards (cofactors 4 and 8)
+        w::<ark_ed_on_bls12_381::EdwardsAffine>("curves ed_on_bls12_381::EdwardsAffine", F, 2, 1),
+        w::<ark_ed_on_bls12_381_bandersnatch::EdwardsAffine>("bandersnatch::EdwardsAffine", F, 2, 1),
+        w::<ark_ed_on_bls12_381_bandersnatch::EdwardsProjective>("bandersnatch::EdwardsProjective", F, 1, 1),
+        w::<ark_ed_on_bn254::EdwardsAffine>("ed_on_bn254::EdwardsAffine", F, 2, 1),
+        w::<ark_ed_on_bls12_377::EdwardsAffine>("ed_on_bls12_377::EdwardsAffine", F, 2, 1),
+        w::<ark_ed25519::EdwardsAffine>("ed25519::EdwardsAffine", F, 2, 1),
+        w::<ark_ed25519::EdwardsProjective>("ed25519::EdwardsProjective", F, 1, 1),
+        w::<ark_ec::pairing::PairingOutput<ark_bn254::Bn254>>("PairingOutput<Bn254>", F, 1, 1),
+        // ark-poly's serializable types
+        e::<DensePolynomial<Fr>>("poly DensePolynomial<Fr>", C18, 2, 8),
+        e::<SparsePolynomial<Fr>>("poly SparsePolynomial<Fr>", C18, 2, 8),
+        e::<Radix2EvaluationDomain<Fr>>("poly Radix2EvaluationDomain<Fr>", C18, 1, 8),
+        e::<GeneralEvaluationDomain<Fr>>("poly GeneralEvaluationDomain<Fr>", C18, 1, 8),
+        e::<Evaluations<Fr, Radix2EvaluationDomain<Fr>>>("poly Evaluations<Fr,Radix2>", C18, 1, 8),
+        e::<DenseMultilinearExtension<Fr>>("poly DenseMultilinearExtension<Fr>", C18, 1, 8),
+        e::<SparseMultilinearExtension<Fr>>("poly SparseMultilinearExtension<Fr>", C18, 1, 8),
+    ]
 }
